@@ -25,7 +25,7 @@ struct TrE { int kind; uint32_t id; uint32_t val; };      // kind 0 filter, 1 li
 static TrE g_tr[64]; static int g_trn;
 static void rec(int kind, uint32_t id, uint32_t val) { if(g_trn < 64) { g_tr[g_trn].kind = kind; g_tr[g_trn].id = id; g_tr[g_trn].val = val; } g_trn++; }
 
-enum { COV_FILTER_BLOCKS = 0, COV_FILTER_REWRITES, COV_REMOVED_FILTER, COV_QUEUED, COV_TWO_FILTERS_PASS, COV_POLICY_STOPS, COV_COND_FALSE, COV_GATE_CLOSED, COV_N };
+enum { COV_FILTER_BLOCKS = 0, COV_FILTER_REWRITES, COV_REMOVED_FILTER, COV_QUEUED, COV_TWO_FILTERS_PASS, COV_POLICY_STOPS, COV_COND_FALSE, COV_GATE_CLOSED, COV_NO_LISTENER_EVENT, COV_N };
 
 #if TK <= 3 || TK == 7 || TK == 8
 // ---------------------------------------------------------------------------------------------- filters
@@ -66,7 +66,7 @@ extern "C" void harness()
 #define PRE 0
 #endif
 	for(int step = -(PRE); step < KK; step++) {
-		unsigned op = step < 0 ? 0u : vf_choose(4);       // PRE filters are installed before the free steps start
+		unsigned op = step < 0 ? 0u : vf_choose(5);       // PRE filters are installed before the free steps start
 		if(op == 0) {                                      // append a filter: symbolic verdict and rewrite per call
 			if(m.nf < MAXF) {
 				int i = m.nf;
@@ -90,6 +90,23 @@ extern "C" void harness()
 		else if(op == 2) {
 			uint32_t id = 501u + (uint32_t)m.nl;
 			if(m.nl < MAXF) { g->t->appendListener(EV, [id](uint32_t a, uint32_t) { rec(1, id, a); }); m.lid[m.nl++] = id; }
+		}
+		else if(op == 4) {                                 // dispatch of an event NOBODY listens to: the filters run all the same
+			uint32_t a = vf_nondet_u32(), b = vf_nondet_u32();
+			for(int i = 0; i < m.nf; i++) { g->verdict[i] = vf_nondet_u32(); g->delta[i] = 0; }
+			g_gate_verdict = 1; g_trn = 0;
+#if TK == 1
+			if(vf_choose(2)) { g->t->enqueue(EV + 1, a, b); g->t->process(); } else g->t->dispatch(EV + 1, a, b);
+#else
+			g->t->dispatch(EV + 1, a, b);
+#endif
+			int k = 0; bool open = true;
+#if TK == 3
+			k = 1;
+#endif
+			for(int i = 0; i < m.nf && open; i++) { if(! m.flive[i]) continue; vf_assert(k < g_trn && g_tr[k].kind == 0 && g_tr[k].id == m.fid[i], 268); k++; if((g->verdict[i] & 1u) == 0) open = false; }
+			vf_assert(g_trn == k, 269);
+			if(k > 0) vf_cover(COV_NO_LISTENER_EVENT);
 		}
 		else {                                             // dispatch: direct or (TK 1) queued
 			uint32_t a = vf_nondet_u32(), b = vf_nondet_u32();
